@@ -167,6 +167,7 @@ class Engine:
         self.src = open(path).read()
         self.tree = ast.parse(self.src)
         self.timeout_ms = timeout_ms
+        self._mem_cache = {}
         self.returns = []       # (state, value) of every explored return, for whole-function analyses
         self._addr = 0
         self.obligations = []
@@ -393,6 +394,8 @@ class Engine:
 
     def ev_Attribute(self, node, st):
         base = self.ev(node.value, st)
+        if isinstance(base, VConc) and base.name in ("lstrip-",):
+            return VConc("method:" + node.attr, (base,))
         if isinstance(base, VConc):
             dotted = base.name + "." + node.attr
             if dotted in self.module_consts:
@@ -556,13 +559,24 @@ class Engine:
             if isinstance(o, HDict):
                 return o.has(self.key_term(item))
             if isinstance(o, HSeq):
-                # witness encoding: (exists k. in range and equal) as a fresh Bool with both directions
-                inn = z3.Bool(fresh_name("in"))
-                w = z3.Int(fresh_name("w!in"))
-                k = z3.Int(fresh_name("k!in"))
-                self.axioms.append(z3.Implies(inn, z3.And(0 <= w, w < o.len, self.py_eq(o.get(w), item, st))))
-                self.axioms.append(z3.ForAll([k], z3.Implies(z3.And(0 <= k, k < o.len, self.py_eq(o.get(k), item, st)), inn)))
-                return inn
+                # membership as an uninterpreted predicate of the item (sound under binders):
+                #   MEM(x) => c[W(x)] == x in range ;  forall k in range. MEM(c[k])
+                it = self.key_term(item)
+                key = (id(o), it.sort().name())
+                hit = self._mem_cache.get(key)
+                if hit is None:
+                    MEM = z3.Function(fresh_name("MEM"), it.sort(), z3.BoolSort())
+                    W = z3.Function(fresh_name("MEMW"), it.sort(), z3.IntSort())
+                    q = z3.Const("q!mem", it.sort())
+                    k = z3.Int("k!mem")
+                    g, n = o.get, o.len
+                    self.axioms.append(z3.ForAll([q], z3.Implies(MEM(q), z3.And(0 <= W(q), W(q) < n, self.key_term(g(W(q))) == q)),
+                                                 patterns=[MEM(q)]))
+                    ek = self.key_term(g(k))
+                    self.axioms.append(z3.ForAll([k], z3.Implies(z3.And(0 <= k, k < n), MEM(ek))))
+                    hit = (MEM, o)
+                    self._mem_cache[key] = hit
+                return hit[0](it)
         if isinstance(cont, VTuple):
             return z3.Or([self.py_eq(x, item, st) for x in cont.items] or [z3.BoolVal(False)])
         raise Unsupported("'in' on %r (line %d)" % (cont, node.lineno))
